@@ -63,6 +63,9 @@
   accepted in place of ':' after `sip` / `tel` (`USchEnd`); the first byte after the scheme is only checked for
   ':' ']' '[' and otherwise taken as ordinary text, even '@' ';' '?' (`sip:@h` has host `@h`).
   Model tied to sipuri.go by the correspondence check.
+  SCOPE NOTES after the second sceptical review (AB1): "EVERY rejection" — the last alternative of `UeShape` and the
+  headers alternative of `UeEndShape` are necessary conditions only; the reject sets of host and port are not finite sets
+  of bytes (host: junk behind `]`; port: any non-digit).
 -/
 import Sipsp.Proofs.UriSpec
 import Sipsp.Proofs.UriComplete
